@@ -208,7 +208,8 @@ func matchPropTimeRange(start, end time.Time, field *ical.Prop) (bool, error) {
 	if err != nil {
 		return false, err
 	}
-	if ptime.After(start) && (end.IsZero() || ptime.Before(end)) {
+	// The start of a time range is inclusive, its end is not
+	if !ptime.Before(start) && (end.IsZero() || ptime.Before(end)) {
 		return true, nil
 	}
 	return false, nil
